@@ -230,8 +230,9 @@ def cond_contract_index_unread(ix, f, node):
     for n in ast.walk(f.node):
         if isinstance(n, ast.For) and n.iter is node:
             loop = n
-    if loop is None or len(loop.body) != 1 or not re.fullmatch(r"output = desugar\.Contract\((\w+), output\)", u(loop.body[0])):
-        return "loop body is not `output = desugar.Contract(index, output)`"
+    m = re.fullmatch(r"(\w+) = (?:desugar\.)?Contract\((\w+), (\w+)\)", u(loop.body[0])) if loop is not None and len(loop.body) == 1 else None
+    if m is None or m.group(1) != m.group(3) or not isinstance(loop.target, ast.Name) or m.group(2) != loop.target.id:
+        return "loop body is not `acc = desugar.Contract(<loop variable>, acc)`"
     return None
 
 
@@ -339,17 +340,18 @@ def cond_call_index_loop(ix, f, node):
 
 
 BENIGN = {
-    # (function, kind, text) -> (reason, side-condition checker)
-    ("tensora.desugar._desugar_expression.desugar_tensor", "for", "contract_indexes"): ("nesting order of Contract nodes is never inspected", cond_contract_index_unread),
-    ("tensora.desugar._desugar_expression.desugar_add", "for", "intersection_indexes"): ("nesting order of Contract nodes is never inspected", cond_contract_index_unread),
-    ("tensora.desugar._desugar_expression.desugar_subtract", "for", "intersection_indexes"): ("nesting order of Contract nodes is never inspected", cond_contract_index_unread),
-    ("tensora.desugar._desugar_expression.desugar_multiply", "for", "intersection_indexes"): ("nesting order of Contract nodes is never inspected", cond_contract_index_unread),
-    ("tensora.expression.ast.merge_index_participants", "comprehension:DictComp", "{*left_indexes.keys(), *right_indexes.keys()}"): (
+    # (function, kind) -> (reason, side-condition checker).  The site's own text is not part of the key
+    # (renaming a local must not matter): the side condition decides, per site, from the construct's shape.
+    ("tensora.desugar._desugar_expression.desugar_tensor", "for"): ("nesting order of Contract nodes is never inspected", cond_contract_index_unread),
+    ("tensora.desugar._desugar_expression.desugar_add", "for"): ("nesting order of Contract nodes is never inspected", cond_contract_index_unread),
+    ("tensora.desugar._desugar_expression.desugar_subtract", "for"): ("nesting order of Contract nodes is never inspected", cond_contract_index_unread),
+    ("tensora.desugar._desugar_expression.desugar_multiply", "for"): ("nesting order of Contract nodes is never inspected", cond_contract_index_unread),
+    ("tensora.expression.ast.merge_index_participants", "comprehension:DictComp"): (
         "every consumer on the generation path wraps the result in set(...) or uses membership/get",
         cond_merge_consumers,
     ),
-    ("tensora.expression.ast.Assignment.__post_init__", "pop", "conflicted_names.pop()"): ("flows only into an exception argument", cond_pop_into_exception),
-    ("tensora.compile._tensor_method.TensorMethod.__call__", "for", "index_participants.items()"): (
+    ("tensora.expression.ast.Assignment.__post_init__", "pop"): ("flows only into an exception argument", cond_pop_into_exception),
+    ("tensora.compile._tensor_method.TensorMethod.__call__", "for"): (
         "evaluate path, not text generation; body only records sizes and raises",
         cond_call_index_loop,
     ),
@@ -368,7 +370,7 @@ def rule_hash_order(ctx, ix, reach):
         ctx.instance("C15.hash-order-sites")
         f = ix.funcs[q]
         key = f"{ix.rel(f.module)}:{q.split(f.module + '.', 1)[-1]}:{what}:{text}"
-        entry = BENIGN.get(k3)
+        entry = BENIGN.get((q, what))
         if entry is None:
             ctx.fail(
                 "C15.hash-order-sites",
@@ -383,7 +385,7 @@ def rule_hash_order(ctx, ix, reach):
             ctx.ok("C15.hash-order-sites", key + f" [benign: {reason}]")
         else:
             ctx.fail("C15.hash-order-sites", key, f"confirmed-benign site whose side condition no longer holds: {why}")
-    missing = [k for k in BENIGN if not any((q, w, t) == k for q, w, t, _ in sites) and k[0] in ix.funcs]
+    missing = [k for k in BENIGN if not any((q, w) == k for q, w, t, _ in sites) and k[0] in ix.funcs]
     ctx.extra["benign_table_entries_not_seen"] = [":".join(k) for k in missing]
 
 
@@ -431,9 +433,9 @@ def rule_purity(ctx, ix, reach):
     for m, tree in ix.modules.items():
         names = set()
         for s in tree.body:
-            if isinstance(s, ast.Assign):
-                for t in s.targets:
-                    if isinstance(t, ast.Name) and isinstance(s.value, (ast.Dict, ast.List, ast.Set, ast.Call)) and not t.id.startswith("__"):
+            if isinstance(s, (ast.Assign, ast.AnnAssign)) and s.value is not None:
+                for t in s.targets if isinstance(s, ast.Assign) else [s.target]:
+                    if isinstance(t, ast.Name) and isinstance(s.value, (ast.Dict, ast.List, ast.Set, ast.Call, ast.DictComp, ast.ListComp, ast.SetComp)) and not t.id.startswith("__"):
                         if isinstance(s.value, ast.Call) and u(s.value.func) in ("reg", "lit", "typer.Typer", "FFI", "threading.Lock", "TypeVar", "llvm.IntType", "llvm.DoubleType", "Multiply", "Boolean", "Integer", "Float", "Tensor", "Mode"):
                             continue
                         names.add(t.id)
